@@ -168,7 +168,26 @@ def make_cases(chk):
                 if use_c:
                     svc = op['osolv']
         gens.append(g)
-    return gens
+    return whole_stock_cases(chk) + gens
+
+
+def whole_stock_cases(chk):
+    """directed: a dilution that needs exactly the whole stock (and one that needs exactly the whole solvent container): a demand
+    that does not exceed the stock is feasible.  Short decimals: 5.844 g NaCl + 94.156 mL water are 100 mL of 1 M."""
+    out = []
+    q = lambda v, p, b: {'v': v, 'p': p, 'b': b}
+    plans = [({'s': 'M', 'v': '0.5'}, q('200', 'm', 'L')), ({'v': '0.25', 'np': '', 'nb': 'mol', 'dp': '', 'db': 'L'}, q('0.4', '', 'L')),
+             ({'s': 'M', 'v': '0.8'}, q('125', 'm', 'L'))]
+    for i, (conc, total) in enumerate(plans):
+        g = gen.Gen(random.Random(chk.seed * 100003 + 125000 + i), nsubs=9)
+        op = {'op': 'newc', 'out': g.fresh(), 'name': g.name(), 'init': [(4, q('5.844', '', 'g')), (1, q('94.156', 'm', 'L'))]}
+        if not g.emit(op, 'whole-stock:newc')['ok']:
+            continue
+        op2 = {'op': 'solfrom', 'src': op['out'], 'solute': 4, 'c': conc, 'q': total, 'name': g.name(), 'osrc': g.fresh(), 'out': g.fresh(),
+               'solvent': 1, 'expect': 'feasible'}
+        g.emit(op2, 'boundary:whole-stock')
+        out.append(g)
+    return out
 
 
 def nontrivial(prog, obs):
